@@ -104,3 +104,18 @@ package handlers
 //@   ensures subset(res, endpoints) && allNonNil(res)
 //@   ensures forall k int :: 0 <= k && k < len(res) ==> epCompatible(res[k], profile.SupportedBy)
 //@   ensures forall j int :: 0 <= j && j < len(endpoints) && epCompatible(endpoints[j], profile.SupportedBy) ==> member(endpoints[j], res)
+
+// ---- C17: the production wiring of the admission checks (closure returned by CreateChainMiddleware)
+//@ func (s *SecurityAdapters) CreateChainMiddleware$1$1
+//@   property C17
+//@   replay handlers_security_chain@internal/app/handlers : secCount
+//@   requires r != nil && r.URL != nil && !ghost(w).started && ghost(w).hdr != nil
+//@   modifies *
+//@   ensures secCount == old(secCount) || secCount == old(secCount) + 1
+//@   ensures secCount == old(secCount) + 1 ==> lastSecClientID == hostOfAddr(old(r.RemoteAddr))
+//@   ensures secCount == old(secCount) + 1 && (lastSecErr != nil || !lastSecAllowed) ==> served == old(served) && ghost(w).started && ghost(w).status >= 400
+//@   ensures secCount == old(secCount) + 1 && lastSecErr == nil && !lastSecAllowed && lastSecRetryAfter > 0 ==> ghost(w).status == 429
+//@   ensures secCount == old(secCount) + 1 && lastSecErr == nil && !lastSecAllowed && lastSecRetryAfter <= 0 && hasPrefix(lastSecReason, "Request body too large") ==> ghost(w).status == 413
+//@   ensures served == old(served) || served == old(served) + 1
+// a body whose length is not declared (chunked) must be capped before the request is served
+//@   at call ServeHTTP 1 assert r.Body == nil || ghost(r.Body).limited
